@@ -16,6 +16,17 @@ CLAIMED = {
         "harness. Multi-process interleavings are explored only at lock granularity (CacheConc part).",
    technique="TLA+ model (Cache.tla) checked by TLC; TLC-exported op sequences replayed on the real classes; recorded "
              "histories validated by TLC trace spec"),
+ "C02": dict(
+   category="model_checking", design_ref="6 C02",
+   text="TLC checks the laws of the static call semantics (PipelineStatic.tla: Eval, Needed, argument sources, cuts; order "
+        "independence, closure, definedness) on every description of a TLA+-defined universe and explores every behaviour of "
+        "the call state machine (PipelineCall.tla) with deadlock checking; every description is built as a real Pipeline in "
+        "every listing order and called with every valid cut (pipeline(), run, func, full_output) plus surplus/missing "
+        "variants; arg_combinations must list only valid cuts; all recorded histories (begin/call/return/raise events with "
+        "arguments and values) plus random DAGs up to 6 functions are validated by TLC (TracePipelineCall.tla).",
+   note="Trusted: TLC, the term encoding, build.py (description -> PipeFunc). Keywords shadowed by a bound value are a stated "
+        "don't-care. Known finding F31 (arg_combinations lists unused sibling outputs).",
+   technique="TLA+ spec of call semantics checked by TLC; universe export + replay into Pipeline; TLC trace validation"),
 }
 NOT_YET = "check not built yet in this round (specification module planned in DESIGN.md section 6)"
 
